@@ -115,7 +115,9 @@ STMTS = ['global a', 'nonlocal a', 'a = 1', 'a: int', 'a += 1', 'del a', 'return
          'a = f"yield"', 'type X = int', 'match a:\n    case [b, *c]: pass', 'while a: break', 'for a in b: continue',
          'f(x := 1, y)', 'def h(): return (x async for x in y)', 'try: pass\nfinally:\n    for a in b: continue',
          'a = f"{x:{a:1}{b:2}}"', 'a = f"{x:{y:{z}}}"', "a = f\"{'\\n'.join(x)}\"", 'async = 1', 'f(**a, *b)',
-         'a = [*b for b in c]', 'def k(a=(yield)): pass', 'a = (b for b in c)(d)', 'nonlocal_ = 1; del (a, b)']
+         'a = [*b for b in c]', 'def k(a=(yield)): pass', 'a = (b for b in c)(d)', 'nonlocal_ = 1; del (a, b)', 'from __future__ import *',
+         '[x := 1 for [a, b] in y]', '{**a}', 'a = {**b, **c}', 'print(*a, **b)', '(a, b) += 1', 'f() = 1', 'a.b: int = 1',
+         'del f()', 'for f() in a: pass', 'with a as f(): pass', 'import a as b.c', 'x = yield = 1', 'a = *b']
 HEADERS = [None, 'def f(a):', 'async def f():', 'class C:', 'def f():\n    def g():', 'for q in r:']
 
 
